@@ -10,6 +10,7 @@ import (
 	"net/http"
 	"net/http/httptest"
 	"net/url"
+	"sort"
 	"strconv"
 	"strings"
 	"sync"
@@ -258,6 +259,7 @@ func (h *hist) exec(line string) string {
 	f := strings.Split(line, "\t")
 	ctx := context.Background()
 	h.store.calls = nil
+	h.store.handed = nil
 	out := "bad-op"
 	switch f[0] {
 	case "cfg":
@@ -309,7 +311,51 @@ func (h *hist) exec(line string) string {
 			out = fmt.Sprintf("active use=%s %s", tu, h.store.renderReq(ar))
 		}
 	}
-	return out + " || " + strings.Join(h.store.calls, " ") + " || " + h.store.dump()
+	return out + " || " + strings.Join(h.store.calls, " ") + " || " + h.store.dump() + " || taint=" + h.taint(f)
+}
+
+// taint lists everything handed to the storage layer during this operation that equals a usable
+// secret in cleartext: a client secret, a code verifier, or a complete code / token (C20).
+func (h *hist) taint(f []string) string {
+	secrets := map[string]string{goodSecret: "client_secret", badSecret: "client_secret"}
+	switch f[0] {
+	case "redeem":
+		if len(f) > 5 && f[5] != "" {
+			secrets[f[5]] = "code_verifier"
+		}
+	}
+	for sig, full := range h.full {
+		kind := "token"
+		if name, ok := h.names.byRaw[sig]; ok {
+			switch name[0] {
+			case 'C':
+				kind = "authorization_code"
+			case 'A':
+				kind = "access_token"
+			case 'R':
+				kind = "refresh_token"
+			}
+		}
+		secrets[full] = "complete_" + kind
+	}
+	for sig, full := range h.store.fullCode {
+		_ = sig
+		secrets[full] = "complete_authorization_code"
+	}
+	seen := map[string]bool{}
+	var out []string
+	for _, it := range h.store.handed {
+		if kind, ok := secrets[it.value]; ok && it.value != "" {
+			k := it.call + ":" + it.where + ":" + kind
+			if !seen[k] {
+				seen[k] = true
+				out = append(out, k)
+			}
+		}
+	}
+	h.store.handed = nil
+	sort.Strings(out)
+	return encListS(out)
 }
 
 func (h *hist) execToken(ctx context.Context, form url.Values, clientID, cred string) string {
